@@ -40,6 +40,7 @@ def check(run, driver):
                 for sigma in (0.0, 1.0):
                     configs.append(dict(n=n, p=p, t=12, r=r, sigma=sigma, seed=int(rng.integers(0, 1000))))
     configs += [dict(seed=0), dict(n=5, p=0.8, t=30, r=4.0, sigma=0.5, seed=0), dict(n=1, p=1.0, t=1, seed=0)]      # seed 0 is a seed like any other; t = 1
+    configs += [dict(n=n_, p=p_, t=15, r=4.0, sigma=s_, seed=int(rng.integers(0, 1000))) for n_, p_, s_ in ((65, 0.1, 0.7), (100, 0.05, 1.0), (150, 0.03, 0.5), (257, 0.02, 0.9))]      # every network size
     # star-like / dense / sparse random
     for _ in range(400 if thorough else 90):
         configs.append(dict(
